@@ -8,7 +8,7 @@ Tie: unit harnesses on the real functions of the working tree (ASan+UBSan) again
 runs of tar2sqfs / gensquashfs on mutated inputs under a timeout with the oracle "terminates; exit 0 ⇒ readable
 image; exit ≠ 0 ⇒ diagnostic and no output file; never a sanitizer report or signal".
 """
-import itertools, json, os, subprocess, sys, time
+import itertools, json, os, re, subprocess, sys, time
 from concurrent.futures import ThreadPoolExecutor
 import vlib
 import base64, zlib
@@ -567,6 +567,10 @@ def classify_tar(ctx, T, job, res):
     return out
 
 
+# a sort-file line whose quoted file name is followed by further characters (the silent `return -1` of decode_filename)
+SORT_TRAILING = re.compile(r'^-?\d+\s+(\[[^\]]*\]\s+)?"((?:[^"\\]|\\.)*)"(.+)$')
+
+
 def pack_to_hl(pack):
     toks = []
     for l in pack.splitlines():
@@ -681,7 +685,7 @@ def check_tools(ctx, stats):
             if clause == "failure-diagnostic" and job[3] is not None and T.run_gen(job[1], job[2], None)["rc"] == 0:
                 key = TL.KEY_NODIAG_XATTR     # fails only with the xattr map file, silently: apply_dfs drops the error
             if clause == "failure-diagnostic" and job[2] is not None and T.run_gen(job[1], None, job[3])["rc"] == 0 \
-                    and any(l.rstrip().count('"') >= 2 and not l.rstrip().endswith('"') for l in job[2].splitlines()):
+                    and any(SORT_TRAILING.match(l.strip()) for l in job[2].replace("\r", "").splitlines()):
                 key = TL.KEY_NODIAG_SORT      # quoted file name followed by more characters: decode_filename returns -1 silently
             if key is None and clause == "terminates":
                 again = T.run_gen(job[1], job[2], job[3], timeout=TL.TIMEOUT * 12)
